@@ -49,6 +49,11 @@ pub fn begin(record: bool) {
 
 /// Add an event to the run's trace.
 pub fn ev(args: std::fmt::Arguments) {
+    if !crate::sched::baton() {
+        // free-running mode (Miri): no locks here, they would add happens-before edges between
+        // the simulated threads and hide data races
+        return;
+    }
     crate::heap::harness(|| {
         let mut t = TRACE.lock().unwrap_or_else(|e| e.into_inner());
         let t = &mut *t;
